@@ -70,11 +70,17 @@ InitMemberOther ==
 
 \* ---- member_tpi: invites that follow up a third-party invite ----------------------
 InitMemberTPI ==
-    \E etpi \in {"ok", "mxid_mismatch", "notoken"}, stpi \in {"absent", "match", "nomatch"},
-       tps \in {"alice", "creator"}, old \in {"absent", "leave", "ban", "join", "invite", "knock"},
-       sm \in {"join", "leave", "absent"} :
-       /\ st = [WithMem(WithMem(BaseSt, "alice", sm), "bob", old) EXCEPT !.tpi = stpi, !.tpisender = tps]
-       /\ ev = [MemberEv("alice", "bob", "invite") EXCEPT !.tpi = etpi]
+    \/ \E etpi \in {"ok", "mxid_mismatch", "notoken"}, stpi \in {"absent", "match", "nomatch"},
+          tps \in {"alice", "creator"}, old \in {"absent", "leave", "ban", "join", "invite", "knock"},
+          sm \in {"join", "leave", "absent"} :
+          /\ st = [WithMem(WithMem(BaseSt, "alice", sm), "bob", old) EXCEPT !.tpi = stpi, !.tpisender = tps]
+          /\ ev = [MemberEv("alice", "bob", "invite") EXCEPT !.tpi = etpi]
+    \* a third_party_invite block on anything but an invite plays no part in the rules
+    \/ \E m \in {"join", "leave", "knock", "ban"}, etpi \in {"ok", "notoken"}, stpi \in {"absent", "match", "nomatch"},
+          old \in {"absent", "invite", "join", "leave"}, jr \in {"public", "invite", "knock"} :
+          /\ st = [WithMem(WithMem(BaseSt, "bob", old), "creator", "join") EXCEPT !.tpi = stpi, !.tpisender = "bob", !.jr = jr]
+          /\ ev = IF m = "ban" THEN [MemberEv("creator", "bob", "ban") EXCEPT !.tpi = etpi]
+                   ELSE [MemberEv("bob", "bob", m) EXCEPT !.tpi = etpi]
 
 \* ---- structure: create event absent / from another room / mixed rooms / no state key ---
 InitStructure ==
@@ -134,7 +140,7 @@ InitCreate ==
 \* ---- pl1 / pl2: power-level events, one- and two-key variations ------------------------
 \* Keys of a power-levels content that a variation can touch.
 PLKeys == {"ban", "kick", "invite", "redact", "events_default", "state_default", "users_default",
-           "events.pl", "events.topic", "events.msg", "notif.room",
+           "events.pl", "events.topic", "events.msg", "notif.room", "notif.here",
            "users.alice", "users.bob", "users.carol"}
 PLVals == {Absent, 0, 1, 2, 3, 4}
 PLValsSmall == {Absent, 1, 2, 3, 4}
@@ -145,6 +151,7 @@ SetKey(c, k, x) ==
       [] k = "events.topic" -> [c EXCEPT !.events["topic"] = x]
       [] k = "events.msg" -> [c EXCEPT !.events["msg"] = x]
       [] k = "notif.room" -> [c EXCEPT !.notif["room"] = x]
+      [] k = "notif.here" -> [c EXCEPT !.notif["here"] = x]
       [] k = "users.alice" -> [c EXCEPT !.users["alice"] = x]
       [] k = "users.bob" -> [c EXCEPT !.users["bob"] = x]
       [] k = "users.carol" -> [c EXCEPT !.users["carol"] = x]
@@ -162,7 +169,7 @@ InitPL1 ==
        /\ ev = PLEv([SetKey(BasePL(s), k, n) EXCEPT !.spk = IF sp = "int" THEN "" ELSE k, !.spkind = sp])
 
 PLKeySeq == <<"ban", "kick", "invite", "redact", "events_default", "state_default", "users_default",
-              "events.pl", "events.topic", "events.msg", "notif.room",
+              "events.pl", "events.topic", "events.msg", "notif.room", "notif.here",
               "users.alice", "users.bob", "users.carol">>
 
 InitPL2 ==
